@@ -4,6 +4,12 @@
 //!   m <name> <maxw> <text> | <class> | <expected answer>   malformed by construction: the documented error
 //!   d <name> <maxw> <text>                                 an example of the documentation (must be accepted)
 //!   x <name> <maxw> <text>                                 fixed corpus / mutated / garbage (no panic)
+//!   k <name> <maxw> <text> | <parts>                       Clifford-only description: `conjugate()` of the built composite on
+//!                                                          every Pauli string -> `conj <is_stabilizer> <w> ; r ; r ...`
+//!   s <name> <maxw> <text> | <parts> | <input digits>      Clifford-only description in a circuit: X-prepared basis state, the
+//!                                                          composite, then the inverses of the listed gates (added one by one,
+//!                                                          in reverse) and measure_all, on the stabilizer and on the vector
+//!                                                          backend -> `circ S <digits>:<count>,.. V <digits>:<count>,..`
 //!
 //! <text>, <name>, error payloads: '.'-separated hexadecimal code points ('-' for the empty string).
 //! <parts>: `P <w0> <name> <wOpen> <nargs> {<cst> <wAfter>}* <nbits> {<w> <zeros> <val>}* <wEnd>` per part, blanks as
@@ -15,6 +21,9 @@
 use q1t_harness::*;
 use q1tsim::error::ParseError;
 use q1tsim::gates::{Composite, Gate};
+use q1tsim::circuit::{Circuit, QuStateRepr};
+use q1tsim::stabilizer::PauliOp;
+use rand_core::SeedableRng;
 
 fn hex(s: &str) -> String
 {
@@ -343,6 +352,87 @@ const GARBAGE: [&str; 44] = ["0", "1", "2", "9", ".", "e", "+", "-", "*", "/", "
     "x", ",", ";", ";", "\u{a0}", "\u{2003}", "\u{661}", "\u{ff13}", "\u{e9}", "\u{200b}", "\u{17f}", "\u{212a}", "1.5", "H", "h", "cx", "CX",
     "rx", "RX(", "u3", "18446744073709551615", "18446744073709551616", "00", "Q"];
 
+// ---------------------------------------------------------------------------------------------
+// the stabilizer route of a composite built by from_string
+
+const PAULI: [PauliOp; 4] = [PauliOp::I, PauliOp::Z, PauliOp::X, PauliOp::Y];
+
+/// The gates that claim to be stabilizer gates, with their number of qubits and their inverse.
+const CLIFF: [(&str, usize, &str); 13] = [("h", 1, "h"), ("x", 1, "x"), ("y", 1, "y"), ("z", 1, "z"), ("s", 1, "sdg"), ("sdg", 1, "s"),
+    ("v", 1, "vdg"), ("vdg", 1, "v"), ("i", 1, "i"), ("cx", 2, "cx"), ("cy", 2, "cy"), ("cz", 2, "cz"), ("swap", 2, "swap")];
+
+fn show_qerr(e: &q1tsim::error::Error) -> String { q1t_harness::sim::show_err(e).replace('|', "/").replace(';', ",") }
+
+fn conj_one(g: &Composite, digits: &[usize]) -> String
+{
+    let mut v: Vec<PauliOp> = digits.iter().map(|&d| PAULI[d]).collect();
+    match std::panic::catch_unwind(std::panic::AssertUnwindSafe(|| g.conjugate(&mut v)))
+    {
+        Ok(Ok(flip)) => format!("ok {} {}", flip as u8, join(&v.iter().map(|o| o.to_bits()).collect::<Vec<_>>())).trim_end().to_string(),
+        Ok(Err(e)) => show_qerr(&e),
+        Err(_) => "panic".to_string()
+    }
+}
+
+/// `conjugate()` on all 4^w Pauli strings (first qubit = most significant digit; digits I Z X Y = 0 1 2 3).
+fn conj_answer(name: &str, text: &str) -> String
+{
+    match build(name, text)
+    {
+        Some(Ok(g)) => {
+            let w = g.nr_affected_bits();
+            let mut parts = vec![format!("conj {} {}", g.is_stabilizer(), w)];
+            for code in 0..4usize.pow(w as u32)
+            {
+                let digits: Vec<usize> = (0..w).map(|p| (code / 4usize.pow((w - 1 - p) as u32)) % 4).collect();
+                parts.push(conj_one(&g, &digits));
+            }
+            parts.join(" ; ")
+        },
+        Some(Err(e)) => err_line(&e),
+        None => "panic".to_string()
+    }
+}
+
+fn add_named(c: &mut Circuit, key: &str, bits: &[usize]) -> q1tsim::error::Result<()>
+{
+    use q1tsim::gates::*;
+    match key
+    {
+        "h" => c.add_gate(H::new(), bits), "x" => c.add_gate(X::new(), bits), "y" => c.add_gate(Y::new(), bits),
+        "z" => c.add_gate(Z::new(), bits), "s" => c.add_gate(S::new(), bits), "sdg" => c.add_gate(Sdg::new(), bits),
+        "v" => c.add_gate(V::new(), bits), "vdg" => c.add_gate(Vdg::new(), bits), "i" => c.add_gate(I::new(), bits),
+        "cx" => c.add_gate(CX::new(), bits), "cy" => c.add_gate(CY::new(), bits), "cz" => c.add_gate(CZ::new(), bits),
+        _ => c.add_gate(Swap::new(), bits)
+    }
+}
+
+/// |input> ; composite ; inverses of the listed gates in reverse order ; measure_all — on one backend.
+fn circuit_run(g: &Composite, gates: &[(&'static str, Vec<usize>)], input: &[usize], stab: bool, seed: u64) -> String
+{
+    let w = g.nr_affected_bits();
+    let shots = 8;
+    let r = std::panic::catch_unwind(std::panic::AssertUnwindSafe(|| -> q1tsim::error::Result<String> {
+        let mut c = Circuit::new(w, w);
+        for (q, &b) in input.iter().enumerate() { if b == 1 { c.x(q)?; } }
+        let all: Vec<usize> = (0..w).collect();
+        c.add_gate(g.clone(), &all)?;
+        for (key, bits) in gates.iter().rev()
+        {
+            let inv = CLIFF.iter().find(|e| e.0 == *key).unwrap().2;
+            add_named(&mut c, inv, bits)?;
+        }
+        c.measure_all(&all)?;
+        let mut rng = rand_hc::Hc128Rng::seed_from_u64(seed);
+        let repr = if stab { QuStateRepr::stabilizer(w, shots) } else { QuStateRepr::vector(w, shots) };
+        c.execute_with(shots, &mut rng, repr)?;
+        let mut h: Vec<(u64, usize)> = c.histogram()?.iter().map(|(k, v)| (*k, *v)).collect();
+        h.sort();
+        Ok(h.iter().map(|(k, v)| format!("{}:{}", (0..w).map(|q| ((k >> q) & 1).to_string()).collect::<String>(), v)).collect::<Vec<_>>().join(","))
+    }));
+    match r { Ok(Ok(s)) => s, Ok(Err(e)) => show_qerr(&e).replace(' ', "_"), Err(_) => "panic".to_string() }
+}
+
 fn main()
 {
     let dir = std::env::args().nth(1).expect("usage: c15 <outdir> [replay <request line>]");
@@ -484,6 +574,64 @@ fn main()
             out.case(&req, &answer(nm, maxw, &s));
         }
         if history.len() < 64 { history.push((req, nm.to_string(), s)); } else { let k = rng.below(64) as usize; history[k] = (req, nm.to_string(), s); }
+    }
+
+    // Clifford-only descriptions on the stabilizer route: conjugate() on every Pauli string, and one circuit each
+    let ncl = 120 * scale;
+    for i in 0..ncl
+    {
+        let nparts = 1 + (i % 4) as usize;
+        let w = 2 + rng.below(3) as usize;                      // 2..4 qubits
+        let mut gates: Vec<(&'static str, Vec<usize>)> = vec![];
+        for j in 0..nparts
+        {
+            // the first part is a two-qubit gate whose operand placement cycles: ascending / descending neighbours,
+            // ascending / descending non-neighbours; the other parts are random
+            let two = j == 0 || rng.below(3) != 0;
+            if two
+            {
+                let key = *rng.pick(&["cx", "cy", "cz", "swap", "cx", "cy"]);
+                let (a, b) = if j == 0 {
+                    match (i / 4) % 4
+                    {
+                        0 => { let q = rng.below(w as u64 - 1) as usize; (q, q + 1) },
+                        1 => { let q = rng.below(w as u64 - 1) as usize; (q + 1, q) },
+                        2 => if w > 2 { let q = rng.below(w as u64 - 2) as usize; (q, q + 2) } else { (0, 1) },
+                        _ => if w > 2 { let q = rng.below(w as u64 - 2) as usize; (q + 2, q) } else { (1, 0) }
+                    } }
+                    else { let a = rng.below(w as u64) as usize; let mut b = rng.below(w as u64 - 1) as usize; if b >= a { b += 1; } (a, b) };
+                gates.push((key, vec![a, b]));
+            }
+            else
+            {
+                let key = *rng.pick(&["h", "x", "y", "z", "s", "sdg", "v", "vdg", "i"]);
+                gates.push((key, vec![rng.below(w as u64) as usize]));
+            }
+        }
+        // every stabilizer gate name occurs: cycle one in
+        { let e = CLIFF[(i as usize) % CLIFF.len()];
+          let bits: Vec<usize> = if e.1 == 1 { vec![rng.below(w as u64) as usize] } else { let a = rng.below(w as u64) as usize; vec![a, (a + 1 + rng.below(w as u64 - 1) as usize) % w] };
+          if gates.len() < 4 { gates.push((e.0, bits)); } else { gates[3] = (e.0, bits); } }
+        let ps: Vec<Part> = gates.iter().map(|(key, bits)| {
+            let nm = random_case(&mut rng, key);
+            let idx: Vec<String> = bits.iter().map(|b| b.to_string()).collect();
+            part(&mut rng, &nm, 0, &idx, false) }).collect();
+        let s = join_parts(&ps.iter().map(|p| p.render()).collect::<Vec<_>>());
+        let st = ps.iter().map(|p| p.ser()).collect::<Vec<_>>().join(" ");
+        out.case(&format!("k {} {} {} | {}", hex("G"), maxw, hex(&s), st), &conj_answer("G", &s));
+        let ans = match build("G", &s)
+        {
+            Some(Ok(g)) => {
+                let wg = g.nr_affected_bits();
+                let input: Vec<usize> = (0..wg).map(|_| rng.below(2) as usize).collect();
+                let seed = rng.next();
+                let line = format!("circ S {} V {}", circuit_run(&g, &gates, &input, true, seed), circuit_run(&g, &gates, &input, false, seed));
+                (input, line)
+            },
+            Some(Err(e)) => (vec![], err_line(&e)),
+            None => (vec![], "panic".to_string())
+        };
+        out.case(&format!("s {} {} {} | {} | {}", hex("G"), maxw, hex(&s), st, ans.0.iter().map(|b| b.to_string()).collect::<String>()), &ans.1);
     }
 
     // malformed by construction: <good parts> ; <bad part> [; <more>]
